@@ -315,9 +315,7 @@ func (w *work) runPart(id string, p *PartSpec, tier, replay string) ([]*Result, 
 				errs[i] = err
 				return
 			}
-			if r.Part == "" {
-				r.Part = p.Name
-			}
+			r.Part = p.Name
 			results[i] = r
 		}(i)
 	}
